@@ -379,7 +379,15 @@ def documented_ast(attrs):
     ps = getattr(a0.value.entries[0], "parts", None)
     if not ps or len(ps) != 1 or ps[0].quoted is not None or ps[0].spread or ps[0].translation or ps[0].filter or not tok_ok(ps[0].value):
         return False
-    return all(attr_doc(a) for a in attrs[1:])
+    for i, a in enumerate(attrs[1:], 1):
+        if not attr_doc(a):
+            return False
+        # a lone `/` is the self-closing slash (Spec.not_slash): last position, no key
+        v = a.value
+        if v.type == "simple" and len(v.entries[0].parts) == 1 and v.entries[0].parts[0].value == "/" and v.entries[0].parts[0].quoted is None:
+            if a.key is not None or v.spread is not None or i != len(attrs) - 1:
+                return False
+    return True
 
 
 def has_empty_key(attrs):
